@@ -182,10 +182,10 @@ fn to_py(core: &Core, ind: usize) -> String {
         Core::Block { statements } => newline_delimited(statements, ind),
 
         Core::PropertyCall { object, property } => {
-            format!("{}.{}", to_py(object, ind), to_py(property, ind))
+            format!("{}.{}", primary(object, ind), to_py(property, ind))
         }
         Core::FunctionCall { function, args } => {
-            format!("{}({})", to_py(function, ind), comma_delimited(args, ind))
+            format!("{}({})", primary(function, ind), comma_delimited(args, ind))
         }
 
         Core::DictComprehension {
@@ -207,7 +207,7 @@ fn to_py(core: &Core, ind: usize) -> String {
             col,
             conds,
         } => {
-            let conds: Vec<String> = conds.iter().map(|cond| to_py(cond, ind)).collect();
+            let conds: Vec<String> = conds.iter().map(|cond| operand(cond, ind, PREC_NOT)).collect();
             format!(
                 "{{{}: {} for {} if {}}}",
                 to_py(from, ind),
@@ -220,7 +220,7 @@ fn to_py(core: &Core, ind: usize) -> String {
             format!("{} for {}", to_py(expr, ind), to_py(col, ind))
         }
         Core::Comprehension { expr, col, conds } => {
-            let conds: Vec<String> = conds.iter().map(|cond| to_py(cond, ind)).collect();
+            let conds: Vec<String> = conds.iter().map(|cond| operand(cond, ind, PREC_NOT)).collect();
             format!(
                 "{} for {} if {}",
                 to_py(expr, ind),
@@ -255,78 +255,18 @@ fn to_py(core: &Core, ind: usize) -> String {
 
         Core::UnderScore => String::from("_"),
 
-        Core::Ge { left, right } => {
-            format!(
-                "{} > {}",
-                to_py(left.as_ref(), ind),
-                to_py(right.as_ref(), ind)
-            )
-        }
-        Core::Geq { left, right } => {
-            format!(
-                "{} >= {}",
-                to_py(left.as_ref(), ind),
-                to_py(right.as_ref(), ind)
-            )
-        }
-        Core::Le { left, right } => {
-            format!(
-                "{} < {}",
-                to_py(left.as_ref(), ind),
-                to_py(right.as_ref(), ind)
-            )
-        }
-        Core::Leq { left, right } => {
-            format!(
-                "{} <= {}",
-                to_py(left.as_ref(), ind),
-                to_py(right.as_ref(), ind)
-            )
-        }
+        Core::Ge { left, right } => binary(core, left, ">", right, ind),
+        Core::Geq { left, right } => binary(core, left, ">=", right, ind),
+        Core::Le { left, right } => binary(core, left, "<", right, ind),
+        Core::Leq { left, right } => binary(core, left, "<=", right, ind),
 
-        Core::Not { expr } => format!("not {}", to_py(expr.as_ref(), ind)),
-        Core::And { left, right } => {
-            format!(
-                "{} and {}",
-                to_py(left.as_ref(), ind),
-                to_py(right.as_ref(), ind)
-            )
-        }
-        Core::Or { left, right } => {
-            format!(
-                "{} or {}",
-                to_py(left.as_ref(), ind),
-                to_py(right.as_ref(), ind)
-            )
-        }
-        Core::Is { left, right } => {
-            format!(
-                "{} is {}",
-                to_py(left.as_ref(), ind),
-                to_py(right.as_ref(), ind)
-            )
-        }
-        Core::IsN { left, right } => {
-            format!(
-                "{} is not {}",
-                to_py(left.as_ref(), ind),
-                to_py(right.as_ref(), ind)
-            )
-        }
-        Core::Eq { left, right } => {
-            format!(
-                "{} == {}",
-                to_py(left.as_ref(), ind),
-                to_py(right.as_ref(), ind)
-            )
-        }
-        Core::Neq { left, right } => {
-            format!(
-                "{} != {}",
-                to_py(left.as_ref(), ind),
-                to_py(right.as_ref(), ind)
-            )
-        }
+        Core::Not { expr } => format!("not {}", operand(expr, ind, prec(core))),
+        Core::And { left, right } => binary(core, left, "and", right, ind),
+        Core::Or { left, right } => binary(core, left, "or", right, ind),
+        Core::Is { left, right } => binary(core, left, "is", right, ind),
+        Core::IsN { left, right } => binary(core, left, "is not", right, ind),
+        Core::Eq { left, right } => binary(core, left, "==", right, ind),
+        Core::Neq { left, right } => binary(core, left, "!=", right, ind),
         Core::IsA { left, right } => {
             format!(
                 "isinstance({},{})",
@@ -335,95 +275,23 @@ fn to_py(core: &Core, ind: usize) -> String {
             )
         }
 
-        Core::AddU { expr } => format!("+{}", to_py(expr, ind)),
-        Core::Add { left, right } => {
-            format!(
-                "{} + {}",
-                to_py(left.as_ref(), ind),
-                to_py(right.as_ref(), ind)
-            )
-        }
-        Core::SubU { expr } => format!("-{}", to_py(expr, ind)),
-        Core::Sub { left, right } => {
-            format!(
-                "{} - {}",
-                to_py(left.as_ref(), ind),
-                to_py(right.as_ref(), ind)
-            )
-        }
-        Core::Mul { left, right } => {
-            format!(
-                "{} * {}",
-                to_py(left.as_ref(), ind),
-                to_py(right.as_ref(), ind)
-            )
-        }
-        Core::Div { left, right } => {
-            format!(
-                "{} / {}",
-                to_py(left.as_ref(), ind),
-                to_py(right.as_ref(), ind)
-            )
-        }
-        Core::FDiv { left, right } => {
-            format!(
-                "{} // {}",
-                to_py(left.as_ref(), ind),
-                to_py(right.as_ref(), ind)
-            )
-        }
-        Core::Pow { left, right } => {
-            format!(
-                "{} ** {}",
-                to_py(left.as_ref(), ind),
-                to_py(right.as_ref(), ind)
-            )
-        }
-        Core::Mod { left, right } => {
-            format!(
-                "{} % {}",
-                to_py(left.as_ref(), ind),
-                to_py(right.as_ref(), ind)
-            )
-        }
+        Core::AddU { expr } => format!("+{}", operand(expr, ind, prec(core))),
+        Core::Add { left, right } => binary(core, left, "+", right, ind),
+        Core::SubU { expr } => format!("-{}", operand(expr, ind, prec(core))),
+        Core::Sub { left, right } => binary(core, left, "-", right, ind),
+        Core::Mul { left, right } => binary(core, left, "*", right, ind),
+        Core::Div { left, right } => binary(core, left, "/", right, ind),
+        Core::FDiv { left, right } => binary(core, left, "//", right, ind),
+        Core::Pow { left, right } => binary(core, left, "**", right, ind),
+        Core::Mod { left, right } => binary(core, left, "%", right, ind),
         Core::Sqrt { expr } => format!("math.sqrt({})", to_py(expr.as_ref(), ind)),
 
-        Core::BAnd { left, right } => {
-            format!(
-                "{} & {}",
-                to_py(left.as_ref(), ind),
-                to_py(right.as_ref(), ind)
-            )
-        }
-        Core::BOr { left, right } => {
-            format!(
-                "{} | {}",
-                to_py(left.as_ref(), ind),
-                to_py(right.as_ref(), ind)
-            )
-        }
-        Core::BXOr { left, right } => {
-            format!(
-                "{} ^ {}",
-                to_py(left.as_ref(), ind),
-                to_py(right.as_ref(), ind)
-            )
-        }
-        Core::BOneCmpl { expr } => format!("~{}", to_py(expr, ind)),
-        Core::BLShift { left, right } => {
-            format!(
-                "{} << {}",
-                to_py(left.as_ref(), ind),
-                to_py(right.as_ref(), ind)
-            )
-        }
-        Core::BRShift { left, right } => {
-            format!(
-                "{} >> {}",
-                to_py(left.as_ref(), ind),
-                to_py(right.as_ref(), ind)
-            )
-        }
+        Core::BAnd { left, right } => binary(core, left, "&", right, ind),
+        Core::BOr { left, right } => binary(core, left, "|", right, ind),
+        Core::BXOr { left, right } => binary(core, left, "^", right, ind),
+        Core::BOneCmpl { expr } => format!("~{}", operand(expr, ind, prec(core))),
+        Core::BLShift { left, right } => binary(core, left, "<<", right, ind),
+        Core::BRShift { left, right } => binary(core, left, ">>", right, ind),
 
         Core::Return { expr } => format!("return {}", to_py(expr.as_ref(), ind)),
 
@@ -433,8 +301,8 @@ fn to_py(core: &Core, ind: usize) -> String {
             to_py(col.as_ref(), ind),
             newline_if_body(body, ind)
         ),
-        Core::In { left, right } => format! {"{} in {}", to_py(left, ind), to_py(right, ind)},
-        Core::Index { item, range } => format!("{}[{}]", to_py(item, ind), to_py(range, ind)),
+        Core::In { left, right } => binary(core, left, "in", right, ind),
+        Core::Index { item, range } => format!("{}[{}]", primary(item, ind), to_py(range, ind)),
         Core::If { cond, then } => {
             format!(
                 "if {}:{}",
@@ -451,9 +319,9 @@ fn to_py(core: &Core, ind: usize) -> String {
         ),
         Core::Ternary { cond, then, el } => format!(
             "{} if {} else {}",
-            to_py(then.as_ref(), ind),
-            to_py(cond.as_ref(), ind + 1),
-            to_py(el.as_ref(), ind + 1)
+            operand(then, ind, prec(core) + 1),
+            operand(cond, ind + 1, prec(core) + 1),
+            operand(el, ind + 1, PREC_LAMBDA)
         ),
         Core::While { cond, body } => {
             format!(
@@ -529,6 +397,70 @@ fn to_py(core: &Core, ind: usize) -> String {
 
         Core::Raise { error } => format!("raise {}", to_py(error, ind)),
     }
+}
+
+const PREC_LAMBDA: u8 = 1;
+const PREC_NOT: u8 = 5;
+const PREC_ATOM: u8 = 15;
+
+/// Binding strength of the Python expression a node is printed as: a higher value binds tighter.
+fn prec(core: &Core) -> u8 {
+    match core {
+        Core::AnonFun { .. } => PREC_LAMBDA,
+        Core::Ternary { .. } => 2,
+        Core::Or { .. } => 3,
+        Core::And { .. } => 4,
+        Core::Not { .. } => PREC_NOT,
+        Core::Ge { .. } | Core::Geq { .. } | Core::Le { .. } | Core::Leq { .. } => 6,
+        Core::Eq { .. } | Core::Neq { .. } | Core::Is { .. } | Core::IsN { .. } => 6,
+        Core::In { .. } => 6,
+        Core::BOr { .. } => 7,
+        Core::BXOr { .. } => 8,
+        Core::BAnd { .. } => 9,
+        Core::BLShift { .. } | Core::BRShift { .. } => 10,
+        Core::Add { .. } | Core::Sub { .. } => 11,
+        Core::Mul { .. } | Core::Div { .. } | Core::FDiv { .. } | Core::Mod { .. } => 12,
+        Core::AddU { .. } | Core::SubU { .. } | Core::BOneCmpl { .. } => 13,
+        Core::Pow { .. } => 14,
+        _ => PREC_ATOM,
+    }
+}
+
+/// Weakest binding strength the (left, right) operands of a binary operator may have without
+/// parentheses: comparisons chain, `**` groups to the right, everything else to the left.
+fn sides(core: &Core) -> (u8, u8) {
+    let p = prec(core);
+    match core {
+        Core::Pow { .. } => (p + 1, p - 1),
+        _ if p == 6 => (p + 1, p + 1),
+        _ => (p, p + 1),
+    }
+}
+
+/// An operand, in parentheses when it binds weaker than its position requires.
+fn operand(core: &Core, ind: usize, min: u8) -> String {
+    if prec(core) < min {
+        format!("({})", to_py(core, ind))
+    } else {
+        to_py(core, ind)
+    }
+}
+
+/// The object of a call, index or attribute access; a bare integer literal needs parentheses too.
+fn primary(core: &Core, ind: usize) -> String {
+    match core {
+        Core::Int { .. } => format!("({})", to_py(core, ind)),
+        _ => operand(core, ind, PREC_ATOM),
+    }
+}
+
+fn binary(core: &Core, left: &Core, op: &str, right: &Core, ind: usize) -> String {
+    let (l_min, r_min) = sides(core);
+    format!(
+        "{} {op} {}",
+        operand(left, ind, l_min),
+        operand(right, ind, r_min)
+    )
 }
 
 fn indent(amount: usize) -> String {
